@@ -469,6 +469,22 @@ func c20Delay(c *Check, P string) {
 		c.Report(GuardedBy(A, g, metaAbsent) && GuardedBy(A, g, ctxAbsent) && GuardedBy(A, g, genPresent), P+".O2", "DELAY-GENERATOR-LAST", A, g.Pos(), "generator call", "the default generator is consulted only when neither metadata nor context provide a delay")
 		okA := Wraps(g.Common().Args[0], isMsg) && Wraps(g.Common().Args[0], func(v ssa.Value) bool { p, ok := v.(*ssa.Parameter); return ok && p.Type().String() == "string" })
 		c.Report(okA, P+".O2", "DELAY-GENERATOR-ARGS", A, g.Pos(), "generator call", "the generator receives the topic and the message")
+		// the message itself, not a copy of it (Copy() leaves the context behind, and with it what the generator may decide on)
+		if u, isU := g.Common().Args[0].(*ssa.UnOp); isU {
+			if al, isAl := u.X.(*ssa.Alloc); isAl {
+				for _, ref := range *al.Referrers() {
+					fa, isFA := ref.(*ssa.FieldAddr)
+					if !isFA || fa.Type().(*types.Pointer).Elem().String() != tMessagePtr {
+						continue
+					}
+					for _, r2 := range *fa.Referrers() {
+						if st, isSt := r2.(*ssa.Store); isSt && st.Addr == ssa.Value(fa) {
+							c.Report(AllOrigins(st.Val, isMsg), P+".O2", "DELAY-GENERATOR-SEES-THE-MESSAGE", A, st.Pos(), "generator parameter: message", "the generator is handed the outgoing message itself (with its context), not a copy or another message")
+						}
+					}
+				}
+			}
+		}
 	}
 	for _, e := range allowTrue {
 		t := e.From.Instrs[len(e.From.Instrs)-1]
@@ -570,6 +586,27 @@ func c20Delay(c *Check, P string) {
 // decorator must then be the one the registry already has, or its observations
 // never reach the registry.
 func c20MetricsRegister(c *Check, P string) {
+	// "also when applied twice": the decorators keep no state between applications — the package-level label-key lists and
+	// bucket definitions are assigned during package initialisation only
+	ng := 0
+	for _, fn := range c.P.SrcFuncs(metricsRel) {
+		if outermost(fn).Name() == "init" {
+			continue
+		}
+		AllInstrs(fn, func(in ssa.Instruction) {
+			st, ok := in.(*ssa.Store)
+			if !ok {
+				return
+			}
+			if g, isG := st.Addr.(*ssa.Global); isG && g.Pkg == fn.Pkg {
+				ng++
+				c.Report(false, P+".O5", "METRICS-GLOBALS-SET-AT-INIT-ONLY", fn, st.Pos(), "store to "+g.Name(), "no function of the metrics package assigns a package-level variable after initialisation (a label list extended on each application makes the second decorator differ from the first)")
+			}
+		})
+	}
+	if fs := c.P.SrcFuncs(metricsRel); len(fs) > 0 {
+		c.Report(true, P+".O5", "METRICS-GLOBAL-STORES-SCANNED", fs[0], fs[0].Pos(), "package components/metrics", fmt.Sprintf("%d stores to package-level variables outside init", ng))
+	}
 	n := 0
 	for _, fn := range c.P.SrcFuncs(metricsRel) {
 		var regs []ssa.CallInstruction
